@@ -91,6 +91,7 @@ Proof.
   - (* Create *) apply step_create_safe; assumption.
   - (* OpenExisting: excluded *) contradiction.
   - (* Write *)
+    destruct b as [|bx b]; [exact Hs|].
     destruct (handle (fs_open s) h) as [i|] eqn:Eh; [|exact Hs].
     apply upd_file_safe; [|exact Hs]. intros j. specialize (Hs j).
     destruct (dir_after (fs_ddir s) (take j (fs_log s)) !! target) as [i'|]; [|exact I].
@@ -154,8 +155,16 @@ Proof. rewrite insert_app_r_alt by lia. rewrite Nat.sub_diag. reflexivity. Qed.
 Fixpoint seq_writes (p : nat) (cs : list (list N)) : list (nat * list N) :=
   match cs with
   | [] => []
+  | [] :: r => seq_writes p r
   | c :: r => (p, c) :: seq_writes (p + length c) r
   end.
+
+(* a zero-length write is a no-op of the model: the state, hence every observable (content, every crash image), is
+   unchanged - this is what lets the correspondence ignore write(fd, "", 0) calls *)
+Lemma write_nil_noop s h : step s (Write h []) = s.
+Proof. reflexivity. Qed.
+Lemma run_write_nil ops1 ops2 h s : run (ops1 ++ Write h [] :: ops2) s = run (ops1 ++ ops2) s.
+Proof. unfold run. rewrite !foldl_app. reflexivity. Qed.
 
 Lemma overwrite_end d b : overwrite d (length d) b = d ++ b.
 Proof.
@@ -166,8 +175,9 @@ Lemma apply_seq_writes cs : forall d, apply_writes d (seq_writes (length d) cs) 
 Proof.
   induction cs as [|c cs IH]; intros d; simpl.
   - rewrite app_nil_r. reflexivity.
-  - unfold apply_writes in *. simpl. rewrite overwrite_end.
-    replace (length d + length c)%nat with (length (d ++ c)) by (rewrite app_length; reflexivity).
+  - destruct c as [|c0 c]; [apply IH|].
+    unfold apply_writes in *. cbn [foldl fst snd]. rewrite overwrite_end.
+    replace (length d + length (c0 :: c))%nat with (length (d ++ c0 :: c)) by (rewrite app_length; reflexivity).
     rewrite IH. rewrite <- app_assoc. reflexivity.
 Qed.
 
@@ -177,10 +187,11 @@ Lemma run_writes files0 dd lg cs : forall ws p,
 Proof.
   induction cs as [|c cs IH]; intros ws p; simpl.
   - rewrite app_nil_r, Nat.add_0_r. reflexivity.
-  - rewrite String.eqb_refl. unfold upd_file. simpl.
+  - destruct c as [|c0 c]; [apply IH|].
+    rewrite String.eqb_refl. unfold upd_file. simpl.
     rewrite list_lookup_middle by reflexivity. simpl.
     rewrite insert_middle. rewrite IH. rewrite <- app_assoc. simpl.
-    rewrite app_length, Nat.add_assoc. reflexivity.
+    rewrite app_length. do 4 f_equal. lia.
 Qed.
 
 Lemma run_app ops1 ops2 s : run (ops1 ++ ops2) s = run ops2 (run ops1 s).
